@@ -336,3 +336,24 @@ boxed_bitops!(c05_boxed_bitops_2_2, 2, 2, 2);
 boxed_bitops!(c05_boxed_bitops_3_1, 3, 1, 3);
 //@ name=c05_boxed_bitops_1_3 prop=C05,C11 tier=quick profile=k64 funcs="BoxedUint::bitand,bitor,bitxor,not,wrapping_*,checked_*,BitAnd/BitOr/BitXor (4 forms),BitAndAssign/BitOrAssign/BitXorAssign (2 forms) with a wider right-hand side" bound="BoxedUint 1 and 3 limbs, all values, symbolic limb index" free_bits=330
 boxed_bitops!(c05_boxed_bitops_1_3, 1, 3, 3);
+
+//@ prop=C05,C20,C11 tier=quick profile=k64 funcs="BitOps::log2_bits (default method),BitOps::bits_precision,BitOps::bytes_precision" bound="BoxedUint of 1..=8, 13, 15 limbs and Uint<1..=7>: floor(log2(bits_precision)) exactly (the loop bound of the constant-time boxed sqrt)" free_bits=0 core=C20
+#[kani::proof]
+#[kani::unwind(20)]
+fn c05_log2_bits_all_small_widths() {
+    fn want(bits: u32) -> u32 {
+        let mut l = 0;
+        while (1u32 << (l + 1)) <= bits {
+            l += 1;
+        }
+        l
+    }
+    let n: usize = kani::any();
+    kani::assume((n >= 1 && n <= 8) || n == 13 || n == 15);
+    let x = BoxedUint::zero_with_precision(64 * n as u32);
+    assert!(x.nlimbs() == n && BitOps::log2_bits(&x) == want(64 * n as u32));
+    assert!(BitOps::bits_precision(&x) == 64 * n as u32 && BitOps::bytes_precision(&x) == 8 * n);
+    core::mem::forget(x);
+    assert!(BitOps::log2_bits(&Uint::<1>::ZERO) == 6 && BitOps::log2_bits(&Uint::<2>::ZERO) == 7 && BitOps::log2_bits(&Uint::<3>::ZERO) == 7);
+    assert!(BitOps::log2_bits(&Uint::<5>::ZERO) == 8 && BitOps::log2_bits(&Uint::<6>::ZERO) == 8 && BitOps::log2_bits(&Uint::<7>::ZERO) == 8);
+}
